@@ -578,6 +578,18 @@ class Evaluator:
         if q == "print":
             self.printed.append(src(e))
             return None
+        # well-formedness probes on an argument nothing is known about: the abstract inputs stand for well-typed objects (a given sampler *is* a
+        # sampler), so a duck-typing probe succeeds on them and fails on None
+        if q == "hasattr" and len(args) == 2 and isinstance(args[1], str) and (args[0] is None or isinstance(args[0], Opaque)):
+            return args[0] is not None
+        if q == "callable" and len(args) == 1 and (args[0] is None or isinstance(args[0], Opaque)):
+            return args[0] is not None
+        if q == "getattr" and len(args) in (2, 3) and isinstance(args[1], str) and isinstance(args[0], Opaque):
+            return Opaque(f"{args[0].tag}.{args[1]}")
+        if q == "getattr" and len(args) == 3 and args[0] is None and isinstance(args[1], str):
+            return args[2]
+        if q == "isinstance" and len(args) == 2 and isinstance(args[0], Opaque) and isinstance(e.args[1], ast.Name) and e.args[1].id == "type":
+            return False
         if q in ("isinstance",):
             raise Licence(f"{self.f.loc(e)}: isinstance test is outside the order-class vocabulary")
         if q in ("abs",) and len(args) == 1 and isinstance(args[0], (int, Fraction)):
